@@ -225,6 +225,11 @@ def build(c):
     raise ValueError("ctor %r" % (ctor,))
 
 
+# an 'endless' generator memory: far longer than any filter order, but a reader that drains its memory terminates (and is
+# then seen by the observation of the iterator after the call) instead of hanging the check
+ENDLESS = 50000
+
+
 class _Counting(object):
     """iterator that counts what is pulled from it"""
 
@@ -257,6 +262,8 @@ def _mem_obj(m):
             return (v for v in vals)
         if how == "iter":
             return iter(vals)
+        if how == "counting":
+            return _Counting(iter(vals))
         if how == "stream":
             return Stream(vals)
         if how == "thub":
@@ -269,10 +276,12 @@ def _mem_obj(m):
         base, step = val(m["base"]), val(m["step"])
         how = m.get("as", "genexp")
         if how == "stream":
-            return Stream(base + i * step for i in itertools.count())
+            return Stream(base + i * step for i in range(ENDLESS))
         if how == "thub":
-            return thub((base + i * step for i in itertools.count()), 3)
-        return (base + i * step for i in itertools.count())
+            return thub((base + i * step for i in range(ENDLESS)), 3)
+        if how == "counting":
+            return _Counting(base + i * step for i in range(ENDLESS))
+        return (base + i * step for i in range(ENDLESS))
     form = m["form"]
     if form == "fixed":
         vals = [val(v) for v in m["vals"]]
@@ -356,6 +365,13 @@ def impl(c):
             if zshape == "kw":
                 kw["zero"] = val(c["zero"])
         res = filt(*args, **kw)
+        mc = c.get("mem")
+        if mc is not None and m is not None and mc["kind"] in ("iter", "gen") and mc.get("as") in ("gen", "iter", "counting", "genexp") \
+                and not (mshape == "omit" and zshape != "pos"):
+            # an ITERATOR memory, right after the call: items pulled, what the caller can still get out of it
+            if isinstance(m, _Counting):
+                obs["mem_pulled"] = m.n
+            obs["mem_next"] = [_out_enc(v) for v in itertools.islice(m, 2)]
         stage = "iter"
         out = res.take(len(xs)) if counter is not None else list(res)
         if counter is not None:
@@ -531,9 +547,20 @@ def compare(c, io, drv):
         src = io.get("src") or ""
         out.append(("model", "generated source differs from compile: impl IR %r, model IR %r; source:\n%s" % (
             B._abbr(io["ir"]), B._abbr(model["ir"]), src[:600])))
+    mr = model.get("memread")
+    if "mem_next" in io and mr is not None:
+        if [gdec(v) for v in io["mem_next"]] != [gdec(v) for v in mr["next"]]:
+            out.append(("model", "iterator memory: after the call the caller's iterator delivers %r next, model (takewhile pulls "
+                                 "%d item(s)) says %r" % (io["mem_next"], mr["pulled"], mr["next"])))
+        if "mem_pulled" in io and io["mem_pulled"] != mr["pulled"]:
+            out.append(("model", "iterator memory: %d item(s) pulled at the call, model says %d" % (io["mem_pulled"], mr["pulled"])))
     d = _outs_equal(c, io, model["out"], model)
     if d:
         out.append(("model", "output differs from model: " + d))
+    if "free" in model and not _short_memory(c, model):
+        d = _outs_equal(c, io, model["free"], model)
+        if d:
+            out.append(("spec", "zero numerator with feedback: the output is not the free response of the memory: " + d))
     if "pulled" in io and io["pulled"] != len(io["out"]):
         out.append(("spec", "%d outputs taken of an endless input but %d input items pulled (one output per input, lazily)" % (
             len(io["out"]), io["pulled"])))
@@ -632,10 +659,10 @@ def _memory(rng, lm, xk):
     if r < 0.65:
         n = rng.choice([lm, lm, lm, lm + 2, max(0, lm - 1), 0, lm + 1])
         return {"kind": "iter", "vals": [_sample(rng, xk) for _ in range(n)],
-                "as": rng.choice(["list", "tuple", "gen", "iter", "stream", "stream", "thub", "thub", "deque"])}
+                "as": rng.choice(["list", "tuple", "gen", "iter", "stream", "stream", "thub", "thub", "deque", "counting", "counting"])}
     if r < 0.8:
         return {"kind": "gen", "base": _sample(rng, xk), "step": rng.choice([_sample(rng, xk), 0]),
-                "as": rng.choice(["genexp", "stream", "thub"])}
+                "as": rng.choice(["genexp", "stream", "thub", "counting"])}
     form = rng.choice(["arith", "arithrev", "fixed", "fixed"])
     if form == "fixed":
         n = rng.choice([lm, lm + 1, max(0, lm - 1)])
@@ -772,11 +799,63 @@ def _gen_shapes(rng, n):
     return out
 
 
+def _gen_free(rng, n):
+    """zero numerators in every spelling (none at all, 0, 0.0, 0j, False, Fraction(0)) x complex / real feedback x memory kinds
+    x non-null zero values: the free response, never the `yield zero` loop"""
+    out = []
+    zs = [0, {"f": 0.0}, _c(0, 0), {"b": False}, "0/1"]
+    fb = [1, -1, 2, _c(0, 1), _c(0, -1), _c(1, 1), -3, _c(0, 2), "1/2", {"f": 0.5}]
+    for _ in range(n):
+        nb = rng.choice([0, 1, 2, 3])
+        b = [rng.choice(zs) for _ in range(nb)]
+        a = [rng.choice([1, -1, 2, _c(0, 1), _c(1, 0), {"b": True}, HUGE, "3/1", _c(1, 1)])] + \
+            [rng.choice(fb + [0]) for _ in range(rng.choice([0, 1, 2]))] + [rng.choice(fb)]
+        ctor = rng.choice(["pos", "pos", "kw", "linear", "cast", "zexpr"])
+        if nb == 0 and ctor in ("pos", "kw", "linear") and rng.random() < 0.5:
+            n_, d_ = None, _wrap(rng, ctor, [], a)[1]
+            if ctor == "pos":
+                ctor = "kw"
+        else:
+            n_, d_ = _wrap(rng, ctor, b, a)
+        c = {"entry": "gcall", "ctor": ctor, "num": n_, "den": d_, "family": "free"}
+        c = _call_part(rng, c, rng.choice(["gint", "gint", "frac", "int"]), 6)
+        if c["mem"] is None and rng.random() < 0.8:
+            c["zero"] = rng.choice([7, _c(0, 1), _c(2, -1), "1/2", {"b": True}, -1])
+            if c["zero_shape"] == "omit":
+                c["zero_shape"] = "kw"
+        if not c["xs"]:
+            c["xs"] = [_sample(rng, "gint") for _ in range(3)]
+        out.append(c)
+    return out
+
+
+def _gen_gain(rng, n):
+    """gains of every spelling x exact (Fraction / int) samples: int, negative, bool, huge, Fraction, float, complex"""
+    out = []
+    gains = [2, 3, -3, 7, HUGE, -HUGE, {"b": True}, "3/1", "-2/1", "1/2", {"f": 2.0}, {"f": -0.5}, _c(2, 0), _c(0, 1), _c(0, -2), _c(1, 1),
+             _c(-1, 0), _c(1, 0), -1, 1]
+    for i in range(n):
+        g = gains[i % len(gains)] if i < 2 * len(gains) else rng.choice(gains)
+        b = [rng.choice([1, -1, 2, 3, 0, -5]) for _ in range(rng.choice([1, 2, 3]))]
+        a = [g] + [rng.choice([1, -1, 2, 0, -3]) for _ in range(rng.choice([0, 1, 2]))]
+        ctor = rng.choice(["pos", "pos", "kw", "linear", "cast"])
+        n_, d_ = _wrap(rng, ctor, b, a)
+        c = {"entry": "gcall", "ctor": ctor, "num": n_, "den": d_, "family": "gain"}
+        c = _call_part(rng, c, "frac", 5)
+        if isinstance(c["zero"], dict) and "b" not in c["zero"]:
+            c["zero"] = "0/1"
+        out.append(c)
+    return out
+
+
 def generate(rng, tier, scale=1):
     quick = tier == "quick"
     out = _gen_specials(rng, quick) if scale == 1 else []
     out += _gen_random(rng, (700 if quick else 12000) * scale)
     out += _gen_shapes(rng, (300 if quick else 4000) * scale)
+    r4 = __import__("random").Random(rng.random())
+    out += _gen_free(r4, (160 if quick else 2500) * scale)
+    out += _gen_gain(r4, (160 if quick else 2500) * scale)
     return out
 
 
@@ -785,6 +864,12 @@ def generate(rng, tier, scale=1):
 # ---------------------------------------------------------------------------------------------
 def tally(eng, c, io):
     eng.count("g_ctor", c["ctor"])
+    if c.get("family"):
+        eng.count("g_family", c["family"])
+        if c["family"] == "free" and "out" in io:
+            eng.count("g_free_response", "non-zero" if any(not gdec(v).is_zero() for v in io["out"] if gdec(v) is not None) else "silent")
+    if "mem_next" in io:
+        eng.count("g_iterator_memory_pulled", io.get("mem_pulled", "uncounted"))
     for side in ("num", "den"):
         a = c[side]
         eng.count("g_arg_" + side, "None" if a is None else ("number" if "number" in a else a.get("as", "list") if "list" in a else a.get("as", "dict")))
